@@ -197,12 +197,9 @@ func (db *GoBadgerDB) Iterator(start, end []byte, reverse bool) Iterator {
 	if bytes.Equal(end, types.EmptyValue) {
 		end = nil
 	}
-	if reverse {
-		it.Seek(end)
-	} else {
-		it.Seek(start)
-	}
-	return &goBadgerDBIt{it, itBase{start, end, reverse}, txn, nil}
+	dbit := &goBadgerDBIt{it, itBase{start, end, reverse}, txn, nil}
+	dbit.Rewind()
+	return dbit
 }
 
 type goBadgerDBIt struct {
@@ -221,9 +218,13 @@ func (it *goBadgerDBIt) Next() bool {
 // Rewind ...
 func (it *goBadgerDBIt) Rewind() bool {
 	if it.reverse {
-		it.Seek(it.end)
+		it.Iterator.Seek(it.end)
+		// end is exclusive: step over the entry stored under end itself
+		if it.end != nil && it.Iterator.Valid() && bytes.Equal(it.Key(), it.end) {
+			it.Iterator.Next()
+		}
 	} else {
-		it.Seek(it.start)
+		it.Iterator.Seek(it.start)
 	}
 	return it.Valid()
 }
@@ -242,7 +243,15 @@ func (it *goBadgerDBIt) Close() {
 
 // Valid 是否合法
 func (it *goBadgerDBIt) Valid() bool {
-	return it.Iterator.Valid() && it.checkKey(it.Key())
+	if !it.Iterator.Valid() {
+		return false
+	}
+	key := it.Key()
+	// checkKey accepts key == end, but end is exclusive (as in leveldb and memdb)
+	if it.end != nil && bytes.Equal(key, it.end) {
+		return false
+	}
+	return it.checkKey(key)
 }
 
 func (it *goBadgerDBIt) Key() []byte {
